@@ -184,8 +184,13 @@ def case_dist(ctx, c):
     cls, F, _ = gen_points(g)
     n, d = F.shape
     sign = g.choice([-1.0, 1.0], d)
-    vm = int(g.integers(0, 4))
-    if vm == 0:
+    vm = int(g.integers(0, 5))
+    if vm == 4:       # pseudo-weight convention: non-negative components summing to exactly one (not unit length)
+        parts = [[1.0], [0.5, 0.5], [0.25, 0.75], [0.2, 0.3, 0.5], [0.25, 0.25, 0.25, 0.25], [0.5, 0.0, 0.5], [0.125, 0.875]]
+        cand = [q for q in parts if len(q) <= d]
+        q = list(cand[int(g.integers(len(cand)))]); q = q + [0.0] * (d - len(q))
+        vec = numpy.array(q)[g.permutation(d)]
+    elif vm == 0:
         vec = numpy.ones(d)
     elif vm == 1:
         vec = numpy.zeros(d); vec[int(g.integers(d))] = float(g.choice([1.0, 3.0]))
